@@ -166,16 +166,44 @@ def extract_loop_wiring(node: Any, invar_vals: list, outvar_vals: list, roles: l
     outs = []
     for k in range(n_carried):
         outs.append("passthrough" if _strip(carried_out[k]) is carried_in[k] else "computed")
-    # condition output
+    # condition output: walk up from it, stopping at the body's (changed) carried outputs. Reaching
+    # one of them = the condition reads the NEW state; reaching the carried INPUT of a slot whose
+    # output is a different value = it reads the OLD state of that slot.
     if _strip(cond_out) is cond_in:
         cond_kind = "pass"
     else:
-        anc = _ancestors(cond_out)
-        new_state = [carried_out[k] for k in range(n_carried) if outs[k] == "computed"]
-        if any(id(v) in anc for v in new_state):
-            cond_kind = "new"
-        elif any(id(v) in anc for v in carried_in):
+        changed = [k for k in range(n_carried) if outs[k] == "computed"]
+        stop = {}
+        for k in changed:
+            stop[id(carried_out[k])] = k
+            stop.setdefault(id(_strip(carried_out[k])), k)
+        hit_new, hit_old, seen, todo = set(), set(), set(), [cond_out]
+        while todo:
+            x = todo.pop()
+            if x is None or id(x) in seen:
+                continue
+            seen.add(id(x))
+            if id(x) in stop:
+                hit_new.add(stop[id(x)])
+                continue
+            for k in changed:
+                if x is carried_in[k]:
+                    hit_old.add(k)
+            p = x.producer()
+            if p is not None:
+                todo.extend(p.inputs)
+                for a in p.attributes.values():
+                    g = getattr(a, "value", None)
+                    if hasattr(g, "outputs") and hasattr(g, "inputs") and not isinstance(g, (str, bytes)):
+                        try:
+                            for sub in g:
+                                todo.extend(sub.inputs)
+                        except Exception:
+                            pass
+        if hit_old:
             cond_kind = "old"
+        elif hit_new or any(carried_in[k] is not None and id(carried_in[k]) in seen for k in range(n_carried)):
+            cond_kind = "new"          # (unchanged slots: old and new state coincide)
         else:
             cond_kind = "other"
     # gathers with the iteration number on axis 0
@@ -401,6 +429,11 @@ def wiring_equal(real: dict, model: dict) -> list:
         elif k == "results":
             if len(rv) != len(mv) or any(r is not None and r != m for r, m in zip(rv, mv)):
                 bad.append(k)
+        elif k == "outs":
+            # a carried slot the scheme passes through must be an Identity of its input; a slot the body
+            # computes may legitimately come back unchanged (the body returned its argument)
+            if len(rv) != len(mv) or any(m == "passthrough" and r != "passthrough" for r, m in zip(rv, mv)):
+                bad.append(k)
         elif rv != mv:
             bad.append(k)
     return bad
@@ -496,7 +529,7 @@ def fixed_programs() -> list[Prog]:
             return lax.while_loop(lambda s: s < 5.0, lambda s: s * 2.0 + 1.0, v)
         return jax.vmap(one)(x)
     P.append(Prog("while_batched", while_batched, [f32(4)],
-                  [[F(v)] for v in ([9, 9, 9, 9], [0, 9, 9, 9], [0, 1, 4, 7], [-3, 0.5, 2, 100], [4.9, 5.0, 5.1, -100])],
+                  [[F(v)] for v in ([9, 9, 9, 9], [0, 9, 9, 9], [0, 1, 4, 7], [0.25, 0.5, 2, 100], [4.9, 5.0, 5.1, 0])],
                   expect=["while"]))
 
     # ---- fori: static bounds incl. zero trips and a non-zero lower bound; index used; two carries
@@ -741,6 +774,20 @@ def ort_session(model_bytes: bytes):
     return ort.InferenceSession(model_bytes, so, providers=["CPUExecutionProvider"])
 
 
+def run_guarded(sess, feeds: dict, seconds: float = 30.0):
+    """sess.run with a watchdog: a Loop that does not end (e.g. a mis-wired condition) is terminated and
+    reported as an ORT error instead of hanging the check"""
+    import threading
+    import onnxruntime as ort
+    ro = ort.RunOptions()
+    timer = threading.Timer(seconds, lambda: setattr(ro, "terminate", True))
+    timer.start()
+    try:
+        return sess.run(None, feeds, ro)
+    finally:
+        timer.cancel()
+
+
 def flat(r) -> list:
     import jax
     return [np.asarray(v) for v in jax.tree_util.tree_leaves(r)]
@@ -824,10 +871,14 @@ def run(chk: Check) -> None:
     thorough = chk.tier == "thorough"
 
     # ---- T: accept/reject table from the live plugins -> Gen/C06.lean ---------------------
+    t_start = time.time()
     rows = generate()
+    t_table = time.time() - t_start
     reqs = [json.dumps({"op": "accepts", **{k: r[k] for k in ("construct", "reverse", "nXs", "staticLength", "nState",
                                                              "dynamicBounds", "capturesTracer", "nBranches")}}) for r in rows]
+    t_p = time.time()
     proved = chk.prove(MODS, checker=thorough)
+    t_prove = time.time() - t_p
     acc = [json.loads(a) for a in common.run_driver("C06", reqs)]
     table_bad = []
     for r, a in zip(rows, acc):
@@ -912,7 +963,7 @@ def run(chk: Check) -> None:
             chk.count({"program": prog.name, "steering": [np.asarray(v).reshape(-1)[:4].tolist() for v in inp]},
                       nontrivial=True)
             try:
-                outs = sess.run(None, dict(zip(names, inp)))
+                outs = run_guarded(sess, dict(zip(names, inp)))
                 err = None
             except Exception as e:
                 outs, err = None, str(e)[-300:]
@@ -936,6 +987,8 @@ def run(chk: Check) -> None:
                              "jax": [(list(e.shape), str(e.dtype), np.asarray(e).reshape(-1)[:8].tolist()) for e in exp],
                              "wiring": [r.get("real") for r in ins.records]})
     timing = {k: round(v, 1) for k, v in timing.items()}
+    timing["reject_table_incl_import"] = round(t_table, 1)
+    timing["lean_build_audit_incl_lock_wait"] = round(t_prove, 1)
     chk.info("correspondence", stats)
     chk.info("timing_s", timing)
     chk.info("programs", stats["programs"])
@@ -985,7 +1038,7 @@ def replay(path: str) -> int:
     inp = [np.asarray(v, dtype=ref.dtype).reshape(ref.shape) if np.asarray(v).size == ref.size else np.asarray(v, dtype=ref.dtype)
            for v, ref in zip(rep["inputs"], prog.inputs[0])]
     try:
-        outs = sess.run(None, dict(zip([i.name for i in sess.get_inputs()], inp)))
+        outs = run_guarded(sess, dict(zip([i.name for i in sess.get_inputs()], inp)))
     except Exception as e:
         outs = None
         print("ORT error:", str(e)[-300:])
